@@ -447,6 +447,7 @@ def run(ctx):
     _flag_values_are_format(ctx)
     _counts_are_tested_before_use(ctx)
     _presized_vectors_are_not_appended_to(ctx)
+    _merging_invalidates_the_name_lookups(ctx)
 
 
 def _byte_copy(ctx):
@@ -1228,3 +1229,48 @@ def _presized_vectors_are_not_appended_to(ctx):
             ctx.ob("R12.12", "%s|%s|resize-then-append" % (f.name, vec), False, f.loc(rz), "`%s` is resize()d to the count and then appended to once per element: it ends up twice as long" % vec)
     ctx.ob("R12.12", "database-library|no-resize-then-append", True, "src/interrogatedb", "%d functions examined" % n)
     ctx.floor("R12.12", "functions examined", n, 300)
+
+
+def _merging_invalidates_the_name_lookups(ctx):
+    """R12.13: a database read back answers by-name queries like the one that was written - also when it arrives after
+    the first by-name query was answered.  The by-name tables are caches keyed on `_lookups_fresh`; the one function that
+    moves another database's records into this one, InterrogateDatabase::merge_from, must leave by an unconditional
+    `_lookups_fresh = 0` of *this* database (a statement of the function's outermost block, no `return` that avoids
+    it).  (Seed S12-C12: the reset was moved to read_new(), which runs on the temporary database; load A, look a name up,
+    request B, look up a name of B: 0.)"""
+    db = ctx.db
+    ctx.rule("R12.13", "InterrogateDatabase::merge_from resets this->_lookups_fresh to 0 on every path to its exit")
+    fs = [g for g in db.functions if g.name == "InterrogateDatabase::merge_from"]
+    if not fs or not fs[0].body:
+        ctx.broken("R12.13: InterrogateDatabase::merge_from not found")
+        return
+    f = fs[0]
+
+    def is_reset(y):
+        if y.get("k") != "bin" or y.get("op") != "=":
+            return False
+        x, v = peel(y.get("x") or {}), strip_casts(y.get("y") or {})
+        return (x.get("k") == "mem" and (x.get("n") or "").endswith("::_lookups_fresh") and (x.get("b") or {}).get("k") == "this"
+                and v is not None and v.get("k") == "int" and v.get("v") == 0)
+    top = [y for y in (f.body.get("s") or []) if isinstance(y, dict)]
+    resets = [y for y in top if is_reset(y)]
+    first = next((y for y in f.walk() if f.cfg.locate(y) is not None), None)
+    rets = [r for r in f.walk() if r.get("k") == "ret"]
+    escaping = [r for r in rets if not resets or first is None or G.reaches_avoiding(f, first, resets, r)]
+    later = []
+    if resets:
+        # nothing merged after the reset: no add_*/update_* call behind the last reset
+        seen = False
+        for y in top:
+            if y is resets[-1]:
+                seen = True
+                continue
+            if seen:
+                later += [c for c in walk(y) if c.get("k") == "call" and callee_short(c).startswith(("add_", "update_"))]
+    ok = bool(resets) and not escaping and not later
+    ctx.ob("R12.13", "InterrogateDatabase::merge_from|_lookups_fresh=0|on-every-exit", ok,
+           f.loc(resets[-1]) if resets else f.loc(),
+           "the by-name tables are rebuilt after every merge" if ok else
+           ("no unconditional `_lookups_fresh = 0` in the outermost block" if not resets else
+            ("a return at line %s leaves without the reset" % f.loc(escaping[0]).split(":")[-1] if escaping else "records are added after the reset")))
+    ctx.floor("R12.13", "merge functions of the database", 1, 1)
